@@ -29,9 +29,9 @@ Lemma elem_is_substring s c v : v <> [] -> In v (split s [c]) -> contains s v = 
 Proof. intros Hv Hin. apply split_aux_1_pieces in Hin as [a [b' E]]. cbn [rev app] in E. rewrite E. apply contains_app, Hv. Qed.
 
 Definition elem (origins v : list N) : bool := existsb (beqs v) (split origins [44]).
+(* "the request's Origin is exactly one of the configured origins" *)
+Definition member (origins v : list N) : bool := negb (beqs v []) && elem origins v.
 Definition has_name (n : list N) (hs : list header) : bool := existsb (fun h => beqs (hname h) n) hs.
-(* the known class: granted by substring although not an element *)
-Definition KF_C11 (origins v : list N) : bool := contains origins v && negb (elem origins v).
 
 Theorem C11_no_origin c r : get_header r Hd_ORIGIN = None -> cors_headers c r = [].
 Proof. intro H. destruct c; cbn [cors_headers]; unfold cors_allow_all, cors_off; rewrite H; reflexivity. Qed.
@@ -40,33 +40,57 @@ Theorem C11_on_echo r o : get_header r Hd_ORIGIN = Some o ->
   exists rest, cors_headers CAllowAll r = H Hd_ACCESS_CONTROL_ALLOW_ORIGIN (hvalue o) :: H Hd_ACCESS_CONTROL_ALLOW_CREDENTIALS TRUE :: rest.
 Proof. intro E. cbn [cors_headers]. unfold cors_allow_all. rewrite E. eexists. reflexivity. Qed.
 
-Theorem C11_off_exact_except_known o cr m h e a r org :
-  get_header r Hd_ORIGIN = Some org -> hvalue org <> [] -> KF_C11 o (hvalue org) = false ->
-  has_name Hd_ACCESS_CONTROL_ALLOW_ORIGIN (cors_headers (COff o cr m h e a) r) = elem o (hvalue org).
-Proof.
-  intros E Hne Hk. cbn [cors_headers]. unfold cors_off. rewrite E.
-  unfold KF_C11 in Hk. destruct (elem o (hvalue org)) eqn:El.
-  - assert (contains o (hvalue org) = true) as ->.
-    { unfold elem in El. apply existsb_exists in El as [x [Hin Hx]]. apply beqs_eq in Hx. subst x. eapply elem_is_substring; eauto. }
-    reflexivity.
-  - rewrite andb_true_r in Hk. rewrite Hk. reflexivity.
-Qed.
-(* preflight grants are exactly the configured lists *)
-Theorem C11_off_preflight o cr m h e a r org :
-  get_header r Hd_ORIGIN = Some org -> contains o (hvalue org) = true -> method r = OPTIONS ->
-  In (H Hd_ACCESS_CONTROL_ALLOW_METHODS m) (cors_headers (COff o cr m h e a) r) /\
-  In (H Hd_ACCESS_CONTROL_ALLOW_HEADERS (lower h)) (cors_headers (COff o cr m h e a) r) /\
-  In (H Hd_ACCESS_CONTROL_MAX_AGE a) (cors_headers (COff o cr m h e a) r).
-Proof. intros E Hc Hm. cbn [cors_headers]. unfold cors_off. rewrite E, Hc, Hm. cbn [negb]. rewrite beqs_refl.
-  repeat split; rewrite !in_app_iff; right; right; simpl; tauto. Qed.
+(* switch off: no grant at all unless the Origin is a member *)
+Theorem C11_off_not_member_nothing o cr m h e a r org :
+  get_header r Hd_ORIGIN = Some org -> member o (hvalue org) = false -> cors_headers (COff o cr m h e a) r = [].
+Proof. intros E Hm. cbn [cors_headers]. unfold cors_off. rewrite E. fold (elem o (hvalue org)). fold (member o (hvalue org)). rewrite Hm. reflexivity. Qed.
 
-(* the defect: three witnesses (prefix, empty, two joined) *)
+(* switch off: the origin grant is present iff the Origin is a member, and then it echoes exactly that origin *)
+Theorem C11_off_exact o cr m h e a r org :
+  get_header r Hd_ORIGIN = Some org ->
+  has_name Hd_ACCESS_CONTROL_ALLOW_ORIGIN (cors_headers (COff o cr m h e a) r) = member o (hvalue org) /\
+  (member o (hvalue org) = true -> In (H Hd_ACCESS_CONTROL_ALLOW_ORIGIN (hvalue org)) (cors_headers (COff o cr m h e a) r)).
+Proof.
+  intros E. cbn [cors_headers]. unfold cors_off. rewrite E. fold (elem o (hvalue org)). fold (member o (hvalue org)).
+  destruct (member o (hvalue org)); cbn [negb]; split; try reflexivity; try discriminate. intros _. left. reflexivity.
+Qed.
+(* a member is literally one of the comma-separated configured origins, and is not empty *)
+Lemma member_spec o v : member o v = true <-> v <> [] /\ In v (split o [44]).
+Proof.
+  unfold member, elem. rewrite andb_true_iff, negb_true_iff, existsb_exists. split.
+  - intros [Hn [x [Hin Hx]]]. apply beqs_eq in Hx. subst x. split; [|exact Hin]. intro Ev. subst v. discriminate.
+  - intros [Hn Hin]. split.
+    + destruct (beqs v []) eqn:Eb; [apply beqs_eq in Eb; congruence|reflexivity].
+    + exists v. split; [exact Hin|apply beqs_refl].
+Qed.
+(* credentials: only when configured as the literal true *)
+Theorem C11_off_credentials o cr m h e a r org :
+  get_header r Hd_ORIGIN = Some org -> member o (hvalue org) = true ->
+  has_name Hd_ACCESS_CONTROL_ALLOW_CREDENTIALS (cors_headers (COff o cr m h e a) r) = beqs cr TRUE.
+Proof.
+  intros E Hm. cbn [cors_headers]. unfold cors_off. rewrite E. fold (elem o (hvalue org)). fold (member o (hvalue org)). rewrite Hm. cbn [negb].
+  destruct (beqs cr TRUE); destruct (beqs (method r) OPTIONS); vm_compute; reflexivity.
+Qed.
+(* preflight grants are exactly the configured lists, and only on OPTIONS *)
+Theorem C11_off_preflight o cr m h e a r org :
+  get_header r Hd_ORIGIN = Some org -> member o (hvalue org) = true ->
+  cors_headers (COff o cr m h e a) r =
+    [H Hd_ACCESS_CONTROL_ALLOW_ORIGIN (hvalue org)] ++ (if beqs cr TRUE then [H Hd_ACCESS_CONTROL_ALLOW_CREDENTIALS TRUE] else []) ++
+    (if beqs (method r) OPTIONS then
+       [H Hd_ACCESS_CONTROL_ALLOW_METHODS m; H Hd_ACCESS_CONTROL_ALLOW_HEADERS (lower h);
+        H Hd_ACCESS_CONTROL_EXPOSE_HEADERS (lower e); H Hd_ACCESS_CONTROL_MAX_AGE a] else []).
+Proof. intros E Hm. cbn [cors_headers]. unfold cors_off. rewrite E. fold (elem o (hvalue org)). fold (member o (hvalue org)). rewrite Hm. reflexivity. Qed.
+
+(* regression witnesses for the defect fixed by e79b41d: a prefix, the empty Origin and two origins joined are not granted *)
 Definition O2 : list N := (* "https://foo.example,https://bar.example" *)
   [104;116;116;112;115;58;47;47;102;111;111;46;101;120;97;109;112;108;101;44;104;116;116;112;115;58;47;47;98;97;114;46;101;120;97;109;112;108;101].
-Example KF_C11_witnesses :
-  forallb (fun v => KF_C11 O2 v) [ [104;116;116;112;115;58;47;47;102;111;111] ; [] ; O2 ] = true.
+Example C11_near_misses_not_granted :
+  forallb (fun v => negb (has_name Hd_ACCESS_CONTROL_ALLOW_ORIGIN
+                      (cors_headers (COff O2 TRUE [] [] [] []) (mkR GET [47] HTTP11 [mkH Hd_ORIGIN v] []))))
+          [ [104;116;116;112;115;58;47;47;102;111;111] ; [] ; O2 ; [44] ] = true.
 Proof. vm_compute. reflexivity. Qed.
-Example C11_refuted : exists r, has_name Hd_ACCESS_CONTROL_ALLOW_ORIGIN
-   (cors_headers (COff O2 TRUE [] [] [] []) r) = true /\ elem O2 (match get_header r Hd_ORIGIN with Some o => hvalue o | None => [] end) = false.
-Proof. exists (mkR GET [47] HTTP11 [mkH Hd_ORIGIN [104;116;116;112;115;58;47;47;102;111;111]] []). vm_compute. auto. Qed.
-Print Assumptions C11_off_exact_except_known.
+(* non-vacuity: a configured origin is granted *)
+Example C11_member_granted :
+  has_name Hd_ACCESS_CONTROL_ALLOW_ORIGIN
+    (cors_headers (COff O2 TRUE [] [] [] []) (mkR GET [47] HTTP11 [mkH Hd_ORIGIN (firstn 19 O2)] [])) = true /\ member O2 (firstn 19 O2) = true.
+Proof. vm_compute. auto. Qed.
